@@ -42,6 +42,10 @@ package main
 // (F0n; never written by this restic version, only by forged/legacy trees) and
 // the other as [] (F0e) - restic reports "M?" for this pair; 'M' is neither
 // demanded nor forbidden there (counter null_vs_empty_list_content_reported_as_M).
+//
+// Deviation from DESIGN: "identical subtree moved" is realised by the kind DB
+// (a directory identical to the base's /b) appearing at another root slot,
+// combined with removing /b by a second edit.
 // A trailing '/' of directory paths is ignored.
 
 import (
